@@ -87,4 +87,67 @@ def goUnquote (s : Bytes) : Option Bytes :=
     if body.contains 10 then none
     else unquoteBody body.length body
 
+/-! ### encoding/json: reading a JSON string literal (`unquoteBytes`) -/
+
+def isHighSurrogate (r : Nat) : Bool := 0xD800 ≤ r && r < 0xDC00
+def isLowSurrogate (r : Nat) : Bool := 0xDC00 ≤ r && r < 0xE000
+
+/-- one character of a JSON string body: decoded bytes and the rest; `none` = syntax error -/
+def jsonUnquoteChar (s : Bytes) : Option (Bytes × Bytes) :=
+  match s with
+  | [] => none
+  | c :: rest =>
+    if c == 34 || c < 0x20 then none
+    else if c == 92 then
+      match rest with
+      | [] => none
+      | e :: rest2 =>
+        if e == 34 || e == 92 || e == 47 then some ([e], rest2)
+        else if e == 98 then some ([8], rest2)
+        else if e == 102 then some ([12], rest2)
+        else if e == 110 then some ([10], rest2)
+        else if e == 114 then some ([13], rest2)
+        else if e == 116 then some ([9], rest2)
+        else if e == 117 then
+          if rest2.length < 4 then none
+          else
+            match hexValue (rest2.take 4) with
+            | none => none
+            | some v =>
+              let rest3 := rest2.drop 4
+              if isHighSurrogate v then
+                -- a following \uDC00..\uDFFF completes the pair; otherwise the replacement character
+                match rest3 with
+                | 92 :: 117 :: rest4 =>
+                  if rest4.length < 4 then some (encodeRune runeError, rest3)
+                  else match hexValue (rest4.take 4) with
+                    | some v2 =>
+                      if isLowSurrogate v2 then some (encodeRune ((v - 0xD800) * 0x400 + (v2 - 0xDC00) + 0x10000), rest4.drop 4)
+                      else some (encodeRune runeError, rest3)
+                    | none => some (encodeRune runeError, rest3)
+                | _ => some (encodeRune runeError, rest3)
+              else if isLowSurrogate v then some (encodeRune runeError, rest3)
+              else some (encodeRune v, rest3)
+        else none
+    else if c < 0x80 then some ([c], rest)
+    else
+      let (r, w) := decodeRune s
+      if r == runeError && w == 1 then some (encodeRune runeError, rest)
+      else some (s.take w, s.drop w)
+
+def jsonUnquoteBody : (fuel : Nat) → Bytes → Option Bytes
+  | 0, s => if s.isEmpty then some [] else none
+  | _ + 1, [] => some []
+  | fuel + 1, s =>
+    match jsonUnquoteChar s with
+    | none => none
+    | some (out, rest) => (jsonUnquoteBody fuel rest).map (out ++ ·)
+
+/-- `json.Unmarshal` of a string literal into a Go string -/
+def jsonUnquote (s : Bytes) : Option Bytes :=
+  if s.length < 2 || s.head? != some 34 || s.getLast? != some 34 then none
+  else
+    let body := (s.drop 1).dropLast
+    jsonUnquoteBody body.length body
+
 end Logg
